@@ -1,8 +1,8 @@
 (* Thm/C01.v — property C01: energy conservation; accepted hops conserve exactly.
    Model: Model/Hop.v (hop_to_it, rescale, kinetic, advance_position/velocity);
-   proofs: Proof/HopP.v. *)
+   proofs: Proof/HopP.v; assembled loop body: Model/Traj.v, Proof/TrajP.v. *)
 From Coq Require Import Reals List Lra.
-From MV Require Import Ops RInst Vec Hop HopP.
+From MV Require Import Ops RInst Vec Cplx Mat Hop HopP Propagate Traj TrajP.
 Import ListNotations.
 Open Scope R_scope.
 
@@ -61,6 +61,34 @@ Theorem C01_harmonic_shadow_energy_exact :
     end.
 Proof. exact verlet_harmonic_shadow. Qed.
 Print Assumptions C01_harmonic_shadow_energy_exact.
+
+(* the assembled loop body (Model/Traj.step = advance_position; advance_velocity;
+   propagate_electronics; surface_hopping; time += dt, in the code's order): an accepted hop in
+   the pass leaves kinetic + active-state potential energy exactly where the Verlet half of the
+   pass put it; the position, time and density matrix never depend on the hop decision, and a
+   pass with no attempt is the plain Verlet pass *)
+Theorem C01_full_step_hop_conserves_energy :
+  forall (n : nat) (m : list R) (dt : R) (poisson : bool) (zeta : R) (e0 e1 : elec (T:=R))
+         (lam : list R) (Cm : mat (T:=R)) (s s' : tstate (T:=R)) W hp att,
+    step ROps n m dt poisson zeta e0 e1 lam Cm s = (s', W, hp, att) ->
+    let f0 := nth (pact s) (eforce e0) [] in let f1 := nth (pact s) (eforce e1) [] in
+    let v1 := advance_velocity ROps m (pv s) f0 f1 dt in
+    px s' = advance_position ROps m (px s) (pv s) f0 dt /\ ptime s' = ptime s + dt
+    /\ prho s' = exp_step ROps n lam Cm dt (prho s)
+    /\ (att = None -> pv s' = v1 /\ pact s' = pact s)
+    /\ (forall t, att = Some (t, true) ->
+          Forall (fun mi => 0 < mi) m -> length v1 = length m ->
+          length (tget (etau e1) (pact s) t) = length m ->
+          0 < vdot ROps (tget (etau e1) (pact s) t) (tget (etau e1) (pact s) t) ->
+          pact s' = t /\ kinetic ROps m (pv s') + vget ROps (diagE ROps n e1) t
+                         = kinetic ROps m v1 + vget ROps (diagE ROps n e1) (pact s)).
+Proof.
+  intros n m dt poisson zeta e0 e1 lam Cm s s' W hp att H. cbv zeta.
+  destruct (step_nuclear n m dt poisson zeta e0 e1 lam Cm s s' W hp att H) as (Hx & Ht & Hr & Hn).
+  split; [exact Hx|]. split; [exact Ht|]. split; [exact Hr|]. split; [exact Hn|].
+  intros t -> Hm Hv Hd Hp. apply (step_hop_energy n m dt poisson zeta e0 e1 lam Cm s s' W hp t H Hm Hv Hd Hp).
+Qed.
+Print Assumptions C01_full_step_hop_conserves_energy.
 
 (* PARTIAL — full statement: "along every trajectory the logged total energy is constant
    up to an error that shrinks quadratically with dt".  Proved: exact conservation at hops,
